@@ -58,7 +58,7 @@ def kv(cmd, requests, timeout=600, per_request_timeout=30, args=()):
         raise ToolError(f"kv {cmd} did not finish within {timeout}s")
     if p.returncode != 0:
         raise ToolError(f"kv {cmd} exited with {p.returncode}: {p.stderr[-2000:]}")
-    out = [json.loads(l) for l in p.stdout.splitlines() if l.strip()]
+    out = [json.loads(l) for l in p.stdout.split("\n") if l.strip()]
     if len(out) != len(requests):
         raise ToolError(f"kv {cmd}: {len(requests)} requests but {len(out)} responses; stderr: {p.stderr[-1000:]}")
     for o in out:
